@@ -265,7 +265,14 @@ def run(ctx):
                 back = core.exc_name(e)
             exp_items = [[k, v] for k, v in final if k != nk] + [[nk, dict(final)[nk]]]
             res.count("sscchart_serialization_checked")
-            if back != exp_items and not ("NOTES" in dict(final) and "NOTES2" in dict(final)):
+            if "NOTES" in dict(final) and "NOTES2" in dict(final):
+                # from_str stops at the first NOTES/NOTES2 parameter; the simfile loader reads the whole chart
+                try:
+                    from simfile.ssc import SSCSimfile
+                    back = [[k, v] for k, v in SSCSimfile(string=str(obj)).charts[0].items()]
+                except Exception as e:
+                    back = core.exc_name(e)
+            if back != exp_items:
                 res.violation(case, "the serialized SSC chart does not parse back to the mapping's items (note data last, under its own key)",
                               impl=str(back)[:300], expected=str(exp_items)[:300]); continue
         reqs.append({"op": "views.run", "kind": kind, "d": start, "ops": seq}); metas.append((case, outs, final))
